@@ -77,6 +77,7 @@ class MemFS:
                 self.do_crash()
             f = MemFile(self, path, "w", text="b" not in mode)
             f.buf = self.files[path]
+            f.append = True
             return f
         if "w" in mode:
             r = self.point("open-w", path)
@@ -124,7 +125,8 @@ class MemFile:
         """os.fsync: what was written so far becomes durable now"""
         if self.fs.dead:
             raise Crash()
-        if self.mode == "w" and not self.closed:
+        if self.mode == "w" and not self.closed and not (getattr(self, "append", False)
+                                                         and not getattr(self, "dirty", False)):
             self.fs.files[self.path] = self.buf
             self.fs.history.append((self.path, self.buf))
 
@@ -171,6 +173,7 @@ class MemFile:
         if isinstance(data, str):
             data = data.encode()
         self.buf += data
+        self.dirty = True
         if r == "crash-after":
             self.fs.do_crash()
         return len(data)
@@ -179,6 +182,8 @@ class MemFile:
         if self.closed:
             return
         self.closed = True
+        if getattr(self, "append", False) and not getattr(self, "dirty", False):
+            return      # opened for appending, nothing appended: the file is as it was
         if self.mode == "w":
             r = self.fs.point("close-w", self.path)
             if r == "fail":
@@ -296,7 +301,9 @@ class GlobalRoute:
             return None
         if isinstance(p, bytes):
             p = p.decode(errors="replace")
-        return p if isinstance(p, str) and p.startswith(self.prefix) else None
+        if isinstance(p, str) and (p.startswith(self.prefix) or p == self.prefix.rstrip("/")):
+            return p      # the modelled directory itself included (os.path.isdir of it)
+        return None
 
     def install(self):
         import builtins
